@@ -451,6 +451,23 @@ def op_setnorm(st, o):
     return "norm-set"
 
 
+@op("F.nudge")
+def op_nudge(st, o):
+    """All values multiplied by 1 + eps (a few parts per million) through the array setter: the lengths
+    are now ALMOST what an earlier norm assignment made them - the next one has to make them exact again."""
+    h = st.h[o["on"]]
+    if h.kind != "F" or h.fm.array.dtype.kind != "f" or not np.all(np.isfinite(h.fm.array)):
+        return "skipped"
+    new = h.fm.array * (1.0 + o["eps"])
+    res = sut(setattr, h.obj, "array", new.copy())
+    expect_ok(res, "field.array = field.array * (1 + eps)")
+    h.fm.array = new
+    h.fm.vtol = 0.0
+    h.meta.pop("rtol", None)
+    st.stats.probe("lengths_almost_at_target")
+    return "nudged"
+
+
 @op("F.setnorm_bad")
 def op_setnorm_bad(st, o):
     """A norm specification that is refused (wrong type, wrong shape, a user function failing at
